@@ -79,6 +79,7 @@ def correspond(ctx):
                          {**desc, "seed": mseed}, why, "own strength per process", key="mcwf-operators")
     # forced index -> applied process
     chosen_process_correspondence(ctx)
+    filing_correspondence(ctx)
     # pipeline words with noise (no schedule)
     wc, we, wi = [], [], []
     for n in range(ctx.scale(12, 100)):
@@ -92,6 +93,49 @@ def correspond(ctx):
         ctx.case(nontrivial_key=("word", c["order"], c["k"], c["sampling"]), validated=True)
         if rows != [(col, tracing.word_to_py(w)) for (col, w) in v]:
             ctx.mismatch("analog_tjm words vs JumpPipeline", c, rows, v)
+
+
+def filing_correspondence(ctx):
+    """NoiseModel.__init__ on random process lists (pairs listed in either order) vs Model/NoiseNorm: stored sites, matrix or factors, and
+    for crosstalk_ab the operator itself: P_a on the lower site (x) P_b on the upper site"""
+    from mqt.yaqs.core.data_structures.noise_model import NoiseModel
+
+    cases, exprs, impl = [], [], []
+    for k in range(ctx.scale(60, 800)):
+        L = int(ctx.rng.integers(2, 7))
+        u = ctx.rng.random()
+        if u < 0.25:
+            name, sites = str(ctx.rng.choice(lottery.ONE_NAMES)), [int(ctx.rng.integers(0, L))]
+        else:
+            a = int(ctx.rng.integers(0, L))
+            b = int(ctx.rng.choice([x for x in range(L) if x != a]))
+            name = "crosstalk_" + "".join(ctx.rng.choice(list("xyz"), size=2))
+            if abs(a - b) == 1 and ctx.rng.random() < 0.3:
+                name = str(ctx.rng.choice(["lowering_two", "raising_two"]))
+            sites = [a, b]
+        try:
+            pr = NoiseModel([{"name": name, "sites": list(sites), "strength": 0.1}]).processes[0]
+            got = (list(pr["sites"]), "matrix" in pr, "factors" in pr)
+            op = None
+            if name.startswith("crosstalk_"):
+                pa, pb = dense.PAULI[name[-2]], dense.PAULI[name[-1]]
+                if "matrix" in pr:
+                    op = bool(np.allclose(np.asarray(pr["matrix"]), np.kron(pa, pb)))
+                elif "factors" in pr:
+                    op = bool(np.allclose(np.asarray(pr["factors"][0]), pa) and np.allclose(np.asarray(pr["factors"][1]), pb))
+        except Exception as e:  # noqa: BLE001
+            got, op = f"EXC:{type(e).__name__}:{e}", None
+        impl.append((got, op))
+        exprs.append(f"let f := file_sites {lottery.g_list([str(x) + '%nat' for x in sites])} in (stored_sites f, carries_matrix f, carries_factors f)")
+        cases.append(dict(name=name, sites=sites))
+    vals = common.coq_eval_sharded("From Coq Require Import List. Import ListNotations.\nFrom Yaqs Require Import Model.NoiseNorm.", exprs, tag="c01n")
+    for c, (got, op), mv in zip(cases, impl, vals):
+        want = (list(mv[0]), bool(mv[1]), bool(mv[2]))
+        ctx.case(nontrivial_key=("filing", c["name"], tuple(c["sites"])) if len(c["sites"]) == 2 and c["sites"][0] > c["sites"][1] else None, validated=True)
+        ctx.count("process_filings")
+        if got != want or op is False:
+            ctx.mismatch("NoiseModel filing of a listed process (stored sites, matrix / factors, crosstalk operator on (lower, upper)) vs NoiseNorm.file_sites",
+                         c, {"filed": got, "operator_is_Pa_on_lower_Pb_on_upper": op}, want, key="filing")
 
 
 def chosen_process_correspondence(ctx):
